@@ -90,25 +90,6 @@ pub fn evaluate_pair(case: &PairCase, run: &PairRun, focus: Focus) -> Outcome {
             break;
         }
     }
-    // a user PING whose acknowledgement was delivered to an endpoint whose connection did not fail is reported to the
-    // PingPong handle as a pong (also while a graceful shutdown has its own PING outstanding)
-    if case.fault.is_none() && run.panic.is_none() && run.end == RunEnd::Quiescent {
-        const USER: [u8; 8] = [0x3b, 0x7c, 0xdb, 0x7a, 0x0b, 0x87, 0x16, 0xb4];
-        for x in [Side::Client, Side::Server] {
-            let failed = run.events.iter().any(|e| e.side == x && matches!(&e.api, Api::ConnDone { result: Err(_) })) || case.ops.iter().any(|o| o.side == x && matches!(o.cmd, ConnCmd::DropConnection | ConnCmd::AbruptShutdown(_)));
-            if failed {
-                continue;
-            }
-            // (delivered well before the connection completed: a pong that arrives in the connection's last moments may be
-            // overtaken by its end)
-            let done_at = run.events.iter().find(|e| e.side == x && matches!(&e.api, Api::ConnDone { .. })).map(|e| e.step).unwrap_or(u64::MAX);
-            let acks_delivered = tap.frames.iter().filter(|f| f.from != x && f.t_d.map(|d| d + 40 < done_at).unwrap_or(false) && matches!(&f.frame, Ok(crate::refmodel::wire::Frame::Ping { ack: true, data }) if *data == USER)).count();
-            let pongs_ok = run.events.iter().filter(|e| e.side == x && matches!(&e.api, Api::Pong { result: Ok(()) })).count();
-            if acks_delivered > pongs_ok {
-                out.fail("C06", "ping/pong-lost", "C06/user-ping-acknowledged-but-pong-never-reported", format!("{}: {} acknowledgements of user PINGs were delivered to the endpoint but only {} pongs were reported to the PingPong handle (the connection did not fail)", x.name(), acks_delivered, pongs_ok));
-            }
-        }
-    }
     // a client's GOAWAY names the highest pushed stream it has processed: never below a pushed stream whose response the
     // application had already been handed when the GOAWAY was written
     for f in tap.frames.iter().filter(|f| f.from == Side::Client) {
